@@ -1440,7 +1440,10 @@ class ProgramData:
                 exit(0)
             elif option_name in ["d", "dump"]:
                 for i in option_value.split(","):
-                    cls._dump.append(DebugDumpable(i))
+                    try:
+                        cls._dump.append(DebugDumpable(i))
+                    except ValueError as e:
+                        raise RuntimeError("Unknown dump target " + i) from e
             elif option_name == "dump-prefix":
                 cls.dump_prefix = option_value
             elif option_name in ["t", "dry-run"]:
